@@ -50,6 +50,167 @@ class Swap(ast.NodeTransformer):
         return node
 
 
+def _uncond_chains(stmt_expr):
+    """Pure Name/Attribute/Subscript chains (at least one step) of an expression that are evaluated whenever the expression is, outermost first."""
+    out = []
+
+    def go(node, live):
+        if isinstance(node, (ast.Lambda, ast.ListComp, ast.SetComp, ast.DictComp, ast.GeneratorExp)):
+            return
+        if live and isinstance(node, (ast.Attribute, ast.Subscript)) and isinstance(node.ctx, ast.Load):
+            cur = node
+            pure = True
+            while isinstance(cur, (ast.Attribute, ast.Subscript)):
+                if isinstance(cur, ast.Subscript) and not isinstance(cur.slice, (ast.Constant, ast.Name)):
+                    pure = False
+                cur = cur.value
+            if pure and isinstance(cur, ast.Name):
+                out.append(node)
+                return
+        if isinstance(node, ast.BoolOp):
+            go(node.values[0], live)
+            for v in node.values[1:]:
+                go(v, False)
+            return
+        if isinstance(node, ast.IfExp):
+            go(node.test, live)
+            go(node.body, False)
+            go(node.orelse, False)
+            return
+        if isinstance(node, ast.Call):
+            # the callee itself is left alone (a bound method is not hoisted), its receiver and arguments are looked at
+            if isinstance(node.func, ast.Attribute):
+                go(node.func.value, live)
+            for a in node.args:
+                go(a, live)
+            for k in node.keywords:
+                go(k.value, live)
+            return
+        if isinstance(node, ast.Compare) and len(node.ops) > 1:
+            go(node.left, live)
+            return
+        for child in ast.iter_child_nodes(node):
+            if isinstance(child, ast.expr):
+                go(child, live)
+    go(stmt_expr, True)
+    return out
+
+
+def hoist(target):
+    """Bind the first unconditionally evaluated lookup chain of every simple statement / if test to a fresh local just before it."""
+    n = 0
+
+    def blocks(node):
+        for fld in ('body', 'orelse', 'finalbody'):
+            sub = getattr(node, fld, None)
+            if isinstance(sub, list) and sub and isinstance(sub[0], ast.stmt):
+                yield sub
+        for h in getattr(node, 'handlers', []) or []:
+            yield h.body
+    for node in list(ast.walk(target)):
+        if isinstance(node, FUNC_TYPES + (ast.ClassDef,)) and node is not target:
+            continue
+        for block in blocks(node):
+            i = 0
+            while i < len(block):
+                st = block[i]
+                expr = None
+                if isinstance(st, (ast.Assign, ast.AugAssign, ast.Return)) and st.value is not None:
+                    expr = st.value
+                elif isinstance(st, ast.Expr) and not isinstance(st.value, (ast.Constant, ast.Yield, ast.YieldFrom)):
+                    expr = st.value
+                elif isinstance(st, ast.If):
+                    expr = st.test
+                if expr is not None and not any(isinstance(x, (ast.Yield, ast.YieldFrom, ast.Await, ast.NamedExpr)) for x in ast.walk(expr)):
+                    chains = _uncond_chains(expr)
+                    if chains and not (isinstance(st, ast.Assign) and chains[0] is st.value and isinstance(st.targets[0], ast.Name)):
+                        ch = chains[0]
+                        name = '_hoisted{}'.format(n)
+                        n += 1
+                        text = ast.unparse(ch)
+
+                        class R(ast.NodeTransformer):
+                            def visit(self, x):
+                                if x is ch:
+                                    return ast.copy_location(ast.Name(id=name, ctx=ast.Load()), x)
+                                return self.generic_visit(x)
+                        if isinstance(st, ast.If):
+                            st.test = R().visit(st.test)
+                        else:
+                            st.value = R().visit(st.value)
+                        block.insert(i, ast.copy_location(ast.parse('{} = {}'.format(name, text)).body[0], st))
+                        i += 1
+                i += 1
+    return n
+
+
+def lambdas_to_defs(target):
+    n = 0
+    for node in list(ast.walk(target)):
+        for fld in ('body', 'orelse', 'finalbody'):
+            block = getattr(node, fld, None)
+            if not (isinstance(block, list) and block and isinstance(block[0], ast.stmt)):
+                continue
+            i = 0
+            while i < len(block):
+                st = block[i]
+                if isinstance(st, (ast.Assign, ast.Expr, ast.Return, ast.For)):
+                    root = st.iter if isinstance(st, ast.For) else st.value
+                    lams = [x for x in ast.walk(root)] if root is not None else []
+                    inner = set()
+                    for x in lams:
+                        if isinstance(x, (ast.ListComp, ast.SetComp, ast.DictComp, ast.GeneratorExp, ast.Lambda)):
+                            inner |= {id(y) for y in ast.walk(x) if y is not x}
+                    lams = [x for x in lams if isinstance(x, ast.Lambda) and id(x) not in inner]
+                    for lam in lams:
+                        name = '_named{}'.format(n)
+                        n += 1
+                        fn = ast.FunctionDef(name=name, args=lam.args, body=[ast.Return(value=lam.body)], decorator_list=[], returns=None, type_params=[])
+
+                        class R(ast.NodeTransformer):
+                            def visit(self, x):
+                                if x is lam:
+                                    return ast.copy_location(ast.Name(id=name, ctx=ast.Load()), x)
+                                return self.generic_visit(x)
+                        if isinstance(st, ast.For):
+                            st.iter = R().visit(st.iter)
+                        else:
+                            st.value = R().visit(st.value)
+                        block.insert(i, ast.copy_location(fn, st))
+                        i += 1
+                i += 1
+    return n
+
+
+def conditional_forms(target):
+    """if c: x = A else: x = B  <->  x = A if c else B;  x = m.get(k, d)  ->  if k in m: x = m[k] else: x = d (d a constant)."""
+    n = 0
+    for node in list(ast.walk(target)):
+        for fld in ('body', 'orelse', 'finalbody'):
+            block = getattr(node, fld, None)
+            if not (isinstance(block, list) and block and isinstance(block[0], ast.stmt)):
+                continue
+            for i, st in enumerate(block):
+                if isinstance(st, ast.If) and len(st.body) == 1 and len(st.orelse) == 1 and isinstance(st.body[0], ast.Assign) and isinstance(st.orelse[0], ast.Assign) \
+                        and len(st.body[0].targets) == 1 and isinstance(st.body[0].targets[0], ast.Name) and ast.unparse(st.body[0].targets[0]) == ast.unparse(st.orelse[0].targets[0]):
+                    block[i] = ast.copy_location(ast.Assign(targets=st.body[0].targets, value=ast.IfExp(test=st.test, body=st.body[0].value, orelse=st.orelse[0].value)), st)
+                    n += 1
+                elif isinstance(st, ast.Assign) and len(st.targets) == 1 and isinstance(st.targets[0], ast.Name) and isinstance(st.value, ast.IfExp):
+                    e = st.value
+                    block[i] = ast.copy_location(ast.If(test=e.test, body=[ast.Assign(targets=st.targets, value=e.body)], orelse=[ast.Assign(targets=st.targets, value=e.orelse)]), st)
+                    n += 1
+                elif isinstance(st, ast.Assign) and len(st.targets) == 1 and isinstance(st.targets[0], ast.Name) and isinstance(st.value, ast.Call) \
+                        and isinstance(st.value.func, ast.Attribute) and st.value.func.attr == 'get' and len(st.value.args) == 2 and not st.value.keywords \
+                        and isinstance(st.value.args[1], ast.Constant) and isinstance(st.value.args[0], (ast.Constant, ast.Name)) and isinstance(st.value.func.value, ast.Name) \
+                        and st.value.func.value.id not in ('os', 'self'):
+                    m, k, d = st.value.func.value, st.value.args[0], st.value.args[1]
+                    block[i] = ast.copy_location(ast.If(test=ast.Compare(left=k, ops=[ast.In()], comparators=[m]),
+                                                        body=[ast.Assign(targets=st.targets, value=ast.Subscript(value=m, slice=k, ctx=ast.Load()))],
+                                                        orelse=[ast.Assign(targets=st.targets, value=d)]), st)
+                    n += 1
+    return n
+
+
 def find(body, parts):
     for st in body:
         if isinstance(st, FUNC_TYPES + (ast.ClassDef,)) and st.name == parts[0]:
@@ -96,6 +257,12 @@ def run_one(job):
                     n += 1
             if n == 0:
                 return (prop, rel, qual, kind, 'skip', [])
+        elif kind in ('hoist', 'lamdef', 'condform'):
+            if isinstance(target, ast.ClassDef):
+                return (prop, rel, qual, kind, 'skip', [])
+            done = {'hoist': hoist, 'lamdef': lambdas_to_defs, 'condform': conditional_forms}[kind](target)
+            if done == 0:
+                return (prop, rel, qual, kind, 'skip', [])
         ast.fix_missing_locations(tree)
         with open(path, 'w', encoding='utf-8') as handle:
             handle.write(ast.unparse(tree) + '\n')
@@ -130,7 +297,7 @@ def main():
                 continue
             if index.mod(rel).functions.get(qual) is None:
                 continue
-            for kind in ('flip', 'swap', 'log', 'guard'):
+            for kind in os.environ.get('FUZZ_KINDS', 'flip swap log guard hoist lamdef condform').split():
                 jobs.append((prop, rel, qual, kind, root))
     with multiprocessing.Pool(min(int(os.environ.get('FUZZ_JOBS', '12')), max(1, len(jobs)))) as pool:
         results = pool.map(run_one, jobs)
